@@ -1,5 +1,7 @@
 import Ledger.Proofs.SqlReadsWindowStmt
+import Ledger.Proofs.SqlReadsFirstStmt
 import Ledger.Proofs.CoreReads
+import Ledger.Proofs.CoreInsPcv
 
 /-!
 C05b — the window-volumes read (point in time / out of time), SQL leg, GENERAL statements.
@@ -19,8 +21,20 @@ pagination wrapper of the volumes resource.
 `windowVolumes_eq_fold`: composed with builder-core's `movesWindowVolumes_eq_fold` — when the ledger's moves are those of a store
 reached by `runOps`, the rows carry `Spec.volumesAt` (the fold of the committed postings whose date lies in the window).
 
+Second dataset — `SELECT DISTINCT ON (accounts_address, asset) accounts_address, asset, first_value(post_commit_effective_volumes)
+OVER (PARTITION BY (accounts_address, asset) ORDER BY effective_date DESC, seq DESC) AS volumes FROM moves WHERE ledger = … AND
+effective_date <= pit` (insertion mode: `post_commit_volumes`, `ORDER BY seq DESC`, `insertion_date <= pit`), the dataset of
+GetAggregatedBalances(PIT) (`firstValue_dataset_shape_*`: the regenerated statements are `aggregateWrap (fvQuery …)`).
+`firstValue_sem`: evaluated by LeanPG on ANY table of well-typed rows with distinct sequence numbers: one row per (account, asset) with
+a move of the ledger dated at or before `pit`, sorted strictly by (account, asset), carrying `Spec.effectiveVolumesAt` /
+`Spec.insertionVolumesAt` (`volumesAtPit`) — the window function, its partition / ORDER BY and the DISTINCT ON (sort by the keys, keep
+the first row of every key) all run by LeanPG's `evalSelect`. `firstValue_eq_fold_effective` / `_insertion`: composed with
+builder-core's `effectiveVolumesAt_eq_window` + `movesWindowVolumes_eq_fold` / `insertionVolumesAt_eq_fold` — the rows carry `Spec.volumesAt`
+for the moves of a store reached by `runOps` (insertion mode: under monotone insertion dates, as in C05store).
+
 Hypotheses, explicit in the statements: solo transaction (`TxState`); the bound literals parse to the window's bounds (`tsParse`; the
-Go driver's rendering of the time is the translator's business); typed rows. NOT covered here: the pagination wrapper
+Go driver's rendering of the time is the translator's business); typed rows. NOT covered here: the aggregation wrapper of GetAggregatedBalances (sum per asset, `aggregate_objects`), the account-expansion variants of the
+second dataset (extra `accounts_address IN (SELECT address FROM dataset)`), the pagination wrapper
 (`DISTINCT ON (account, asset) … ORDER BY account LIMIT 101`, CTE) and the filter / address-segment variants of the dataset — those stay
 with the kernel-evaluated scenarios of `Props/C05q*.lean`.
 -/
@@ -85,5 +99,80 @@ theorem windowVolumes_eq_fold (ops : List StoreOp) (st : Store) (hrun : runOps o
   apply List.map_congr_left
   intro k _
   rw [movesWindowVolumes_eq_fold hrun]
+
+/-! ### `first_value(post_commit_[effective_]volumes)` -/
+
+theorem firstValue_dataset_shape_effective (b l pit : String) :
+    ReadSql.aggregatedEffPit b l pit = [aggregateWrap (fvQuery b (winWhere l (dateCol .effective) (some pit) none) 2 .effective)] :=
+  aggregatedEffPit_shape b l pit
+
+theorem firstValue_dataset_shape_insertion (b l pit : String) :
+    ReadSql.aggregatedInsPit b l pit = [aggregateWrap (fvQuery b (winWhere l (dateCol .insertion) (some pit) none) 2 .insertion)] :=
+  aggregatedInsPit_shape b l pit
+
+/-- **The `first_value` dataset on any `moves` table = the volumes of the latest move at or before `pit`.** -/
+theorem firstValue_sem (q : Nat) (env : Env) (b l : String) (hb : b.isEmpty = false) (mode : DateMode) (id : Nat) (pitT : String × Int)
+    (hp : tsParse pitT.1 = .ok pitT.2)
+    (s : St) (hs : TxState s) (trigs : List TriggerDef) (nr : Nat) (rows : List Ver)
+    (hT : s.w.table? (mvFull b) = some ((mvT b trigs nr).withRows rows))
+    (tbl : List (String × MoveRow)) (hview : MvView (cv s) rows tbl) (hseq : (tbl.map (·.2.seq)).Nodup)
+    (T : List MoveRow) (hTp : T.Perm (ledgerMoves l tbl)) :
+    ∃ (keys : List Key),
+      (evalQuery (q + 6) env (fvQuery b (winWhere l (dateCol mode) (some pitT.1) none) id mode)).exec s =
+        (.ok { cols := ["accounts_address", "asset", "volumes"],
+               rows := keys.map (fun k => [.text k.1, .text k.2, volVal (volumesAtPit mode T k pitT.2)]) }, s) ∧
+      keys.Nodup ∧
+      (∀ k, k ∈ keys ↔ ∃ m ∈ T, m.key = k ∧ m.date mode ≤ pitT.2) ∧
+      keys.Pairwise (fun a c => KeyOrd.lt c a = false) :=
+  exec_fvQuery q env b l hb mode id pitT hp s hs trigs nr rows hT tbl hview hseq T hTp
+
+/-- what `volumesAtPit` is, per mode -/
+theorem volumesAtPit_effective (T : List MoveRow) (k : Key) (pit : Int) : volumesAtPit .effective T k pit = effectiveVolumesAt T k pit := rfl
+theorem volumesAtPit_insertion (T : List MoveRow) (k : Key) (pit : Int) : volumesAtPit .insertion T k pit = insertionVolumesAt T k pit := rfl
+
+/-- **… = the fold of the history (effective dates)**, for the moves of a store reached by `runOps`. -/
+theorem firstValue_eq_fold_effective (ops : List StoreOp) (st : Store) (hrun : runOps ops = .ok st)
+    (q : Nat) (env : Env) (b l : String) (hb : b.isEmpty = false) (id : Nat) (pitT : String × Int) (hp : tsParse pitT.1 = .ok pitT.2)
+    (s : St) (hs : TxState s) (trigs : List TriggerDef) (nr : Nat) (rows : List Ver)
+    (hT : s.w.table? (mvFull b) = some ((mvT b trigs nr).withRows rows))
+    (tbl : List (String × MoveRow)) (hview : MvView (cv s) rows tbl) (hseq : (tbl.map (·.2.seq)).Nodup)
+    (hTp : st.moves.Perm (ledgerMoves l tbl)) :
+    ∃ (keys : List Key),
+      (evalQuery (q + 6) env (fvQuery b (winWhere l (dateCol .effective) (some pitT.1) none) id .effective)).exec s =
+        (.ok { cols := ["accounts_address", "asset", "volumes"],
+               rows := keys.map (fun k => [.text k.1, .text k.2, volVal (volumesAt st.txRecs { pit := some pitT.2 } .effective k)]) }, s) ∧
+      keys.Nodup ∧
+      (∀ k, k ∈ keys ↔ ∃ m ∈ st.moves, m.key = k ∧ m.date .effective ≤ pitT.2) ∧
+      keys.Pairwise (fun a c => KeyOrd.lt c a = false) := by
+  obtain ⟨keys, h1, h2, h3, h4⟩ := exec_fvQuery q env b l hb .effective id pitT hp s hs trigs nr rows hT tbl hview hseq st.moves hTp
+  refine ⟨keys, ?_, h2, h3, h4⟩
+  rw [h1]
+  congr 3
+  apply List.map_congr_left
+  intro k _
+  rw [volumesAtPit_effective, effectiveVolumesAt_eq_window (MovesInv_runOpsFrom ops MovesInv_empty hrun).pcev, movesWindowVolumes_eq_fold hrun]
+
+/-- **… = the fold of the history (insertion dates)**, for a store reached by `runOps` whose insertion dates never decrease. -/
+theorem firstValue_eq_fold_insertion (ops : List StoreOp) (st : Store) (hrun : runOps ops = .ok st)
+    (hmono : st.txRecs.Pairwise (fun a b => a.insertedAt ≤ b.insertedAt))
+    (q : Nat) (env : Env) (b l : String) (hb : b.isEmpty = false) (id : Nat) (pitT : String × Int) (hp : tsParse pitT.1 = .ok pitT.2)
+    (s : St) (hs : TxState s) (trigs : List TriggerDef) (nr : Nat) (rows : List Ver)
+    (hT : s.w.table? (mvFull b) = some ((mvT b trigs nr).withRows rows))
+    (tbl : List (String × MoveRow)) (hview : MvView (cv s) rows tbl) (hseq : (tbl.map (·.2.seq)).Nodup)
+    (hTp : st.moves.Perm (ledgerMoves l tbl)) :
+    ∃ (keys : List Key),
+      (evalQuery (q + 6) env (fvQuery b (winWhere l (dateCol .insertion) (some pitT.1) none) id .insertion)).exec s =
+        (.ok { cols := ["accounts_address", "asset", "volumes"],
+               rows := keys.map (fun k => [.text k.1, .text k.2, volVal (volumesAt st.txRecs { pit := some pitT.2 } .insertion k)]) }, s) ∧
+      keys.Nodup ∧
+      (∀ k, k ∈ keys ↔ ∃ m ∈ st.moves, m.key = k ∧ m.date .insertion ≤ pitT.2) ∧
+      keys.Pairwise (fun a c => KeyOrd.lt c a = false) := by
+  obtain ⟨keys, h1, h2, h3, h4⟩ := exec_fvQuery q env b l hb .insertion id pitT hp s hs trigs nr rows hT tbl hview hseq st.moves hTp
+  refine ⟨keys, ?_, h2, h3, h4⟩
+  rw [h1]
+  congr 3
+  apply List.map_congr_left
+  intro k _
+  rw [volumesAtPit_insertion, insertionVolumesAt_eq_fold hrun hmono]
 
 end Ledger.C05b
